@@ -8,6 +8,7 @@ import CfVerif.Proofs.C05Data
 import CfVerif.Proofs.C05Flags
 import CfVerif.Proofs.C05Readd
 import CfVerif.Proofs.C05Sync
+import CfVerif.Proofs.C05Inter
 namespace CfVerif.C05
 open CfVerif Spec
 
@@ -124,6 +125,18 @@ theorem gen_synclogger :
       "if data == self.DISCONNECT_EVENT: ;     self._queue.empty() ;     raise StopIteration", "return data"] ∧
     Gen.C05.slLog_callbackBody = ["self._queue.put((ts, data, logblock))"] ∧
     Gen.C05.slDisconnectedBody = ["self.disconnect()", "self._queue.put(self.DISCONNECT_EVENT)"] := by decide
+
+/-- statement order of `SyncLogger.connect` / `.disconnect` (the atomic steps of the interleaving model): in
+`connect` the data callback is registered BEFORE `config.start()`; `disconnect` stops and deletes before it
+unregisters; the `disconnected` callback is registered before / removed after the loop, `_is_connected` is
+written last -/
+theorem gen_sl_statement_order :
+    Gen.C05.slConnectLoopOrder = ["log.add_config", "config.data_received_cb.add_callback", "config.start"] ∧
+    Gen.C05.slDisconnectLoopOrder = ["config.stop", "config.delete", "config.data_received_cb.remove_callback"] ∧
+    Gen.C05.slConnectShape = ["if self._is_connected:", "raise Exception('Already connected')", "endif",
+      "self._cf.disconnected.add_callback(self._disconnected)", "LOOP", "self._is_connected = True"] ∧
+    Gen.C05.slDisconnectShape = ["if self._is_connected:", "LOOP",
+      "self._cf.disconnected.remove_callback(self._disconnected)", "self._is_connected = False", "endif"] := by decide
 
 /-! ## Clause 1: a configuration is accepted iff … ; nothing is sent for a rejected one -/
 
@@ -456,6 +469,46 @@ theorem ends_at_disconnect (st : St) (s : Nat) (sl : SL) (r : Res) (hs : st.sls[
   obtain ⟨sl', h1, h2, h3⟩ := (slDisconnected_spec s hr).2 hok sl hs
   exact ⟨sl', h1, h2, h3, by simp [slNext, h1, h2]⟩
 
+/-! ### schedules of the incoming thread relative to connect() / disconnect() -/
+
+/-- The invariant holds whenever no call of logger `s` is in progress, it has requested no start, and it is
+registered at most once on every configuration (e.g. a fresh SyncLogger); `N` = number of LogConfig objects. -/
+theorem inv_initial (i : ISt) (s : Nat) (hprog : i.prog s = []) (hst : ∀ h, (s, h) ∉ i.started)
+    (hle : ∀ h, subCount i.st s h ≤ 1) : Inv i.st.confs.length s i := by
+  refine ⟨fun h hh => ?_, fun h _ => hle h, fun h hm => absurd hm (hst h), by rw [hprog]; rfl,
+    fun stmt hm => by rw [hprog] at hm; cases hm⟩
+  exact ⟨i.st.confs[h], by simp [St.conf?, List.getElem?_eq_getElem hh]⟩
+
+/-- **For EVERY interleaving**: `connect()` and `disconnect()` of logger `s` run as sequences of atomic statements
+(source order, `gen_sl_statement_order`), and between any two statements anything allowed by `SchedsOk` may
+happen — packets from the incoming thread (acknowledgements, log data, any channel), `next()` calls, other user
+operations on the Log, statements and calls of other SyncLoggers.  In every state reached, every log data
+packet that is decoded (`data_received_cb` fires) for a block whose `config.start()` the logger has executed —
+and whose callback it has not yet removed in `disconnect()` — queues the sample for the logger exactly once. -/
+theorem no_sample_lost (N s : Nat) (i0 : ISt) (sched : List IOp) (hI : Inv N s i0) (hok : SchedsOk N s i0 sched)
+    (hsl : (i0.st.sls[s]?).isSome = true) (data : List UInt8) (h ts : Nat) (vals : List (Nat × Val))
+    (hstarted : (s, h) ∈ (irun i0 sched).1.started)
+    (hdec : Out.data h ts vals ∈ (onLogData (irun i0 sched).1.st data).outs) :
+    (onLogData (irun i0 sched).1.st data).outs.count (.put s (.sample ts vals h)) = 1 := by
+  obtain ⟨hc, hd, _, _⟩ := gen_sl_statement_order
+  have hInv := irun_inv N s hc hd sched i0 hI hok
+  have hsl' : ((irun i0 sched).1.st.sls[s]?).isSome = true := by
+    cases hq : i0.st.sls[s]? with
+    | none => rw [hq] at hsl; cases hsl
+    | some sl =>
+      obtain ⟨sl', h1, _⟩ := irun_qrel s sched i0 sl hq
+      rw [h1]; rfl
+  rw [logdata_put_count _ data s hsl' h ts vals hdec]
+  exact (hInv.started h hstarted).2
+
+/-- … and the queue law holds for every interleaving too: what `__next__` took, followed by what is still
+queued, is what was queued before followed by what was put — so each of those samples is yielded at most
+once, in order, none skipped. -/
+theorem interleaved_fifo (i0 : ISt) (sched : List IOp) (s : Nat) (sl : SL) (hs : i0.st.sls[s]? = some sl) :
+    ∃ sl', (irun i0 sched).1.st.sls[s]? = some sl' ∧
+      sl.queue ++ putsOf s (irun i0 sched).2 = popsOf s (irun i0 sched).2 ++ sl'.queue :=
+  irun_qrel s sched i0 sl hs
+
 /-! ## Non-vacuity -/
 
 def exToc : Toc := [⟨0, 0, "uint8_t"⟩, ⟨1, 300, "float"⟩, ⟨2, 2, "FP16"⟩]
@@ -515,5 +568,14 @@ example : ((run exSt3 [.addConfig 0]).1.conf? 0).map (fun c => (c.variables.map 
 example : ((run exSt3 exRejectReadd).1.conf? 0).map (fun c => (c.variables.map (·.name), c.defaults, c.valid)) =
     some ([0, 1, 2], [], true) := by decide
 example : TocNE exSt3.toc := by show ∀ e ∈ _, _; decide
+
+/-- connect() statement by statement; right after `config.start()` the incoming thread delivers the create ack,
+the start ack and a data packet; then the rest of connect() and one `next()`: the sample is yielded -/
+def exSched : List IOp := [.op (.newSl [0]), .callConnect 0, .run 0, .run 0, .run 0, .run 0,
+  .op (.rx 1 [6, 1, 0]), .op (.rx 1 [3, 1, 0]), .op (.rx 2 [1, 1, 0, 0, 7]), .run 0, .op (.slNext 0)]
+example : popsOf 0 (irun { st := exSt2 } exSched).2 = [.sample 1 [(0, .int 7)] 0] ∧
+    (irun { st := exSt2 } exSched).1.started = [(0, 0)] ∧ (irun { st := exSt2 } exSched).1.prog 0 = [] := by decide
+example : Inv 1 0 ({ st := exSt2 } : ISt) := inv_initial { st := exSt2 } 0 rfl (fun _ hm => by cases hm)
+  (fun h => by unfold subCount St.conf?; cases h <;> simp [exSt2, exConf2])
 
 end CfVerif.C05
